@@ -108,7 +108,7 @@ class Indentation(afmformats.AFMForceDistance):
                     fp.pop(ax)
 
         # remember preprocessing
-        self.preprocessing = preprocessing
+        self.preprocessing = list(preprocessing)
         self.preprocessing_options = copy.deepcopy(options)
 
         return self._preprocessing_details
@@ -302,7 +302,9 @@ class Indentation(afmformats.AFMForceDistance):
         if model_key is not None:
             self.fit_properties["model_key"] = model_key
         if self.fit_properties.get("params_initial", False):
-            parms = self.fit_properties["params_initial"]
+            # return a copy (the stored parameters must not be edited
+            # behind the back of `FitProperties`)
+            parms = copy.deepcopy(self.fit_properties["params_initial"])
         elif "model_key" in self.fit_properties:
             parms = guess_initial_parameters(
                 self,
@@ -380,7 +382,8 @@ class Indentation(afmformats.AFMForceDistance):
                               names=names,
                               lda=lda)
             rt = rater.rate(datasets=self)[0]
-            self._rating = (curhash, regressor, training_set, names, lda, rt)
+            self._rating = (curhash, regressor, training_set,
+                            copy.copy(names), lda, rt)
         else:
             # Use cached rating
             rt = self._rating[-1]
